@@ -674,6 +674,13 @@ func ruleIdxConst(trusted map[string]string) func(c *Ctx, r *Rep, tier string) {
 							if k, ok := constInt(bo.Y); ok {
 								need, what = k, fmt.Sprintf("[len-%d]", k)
 							}
+						} else if isL {
+							// len(other)-k used to index this container: the index is
+							// negative unless the other sequence has k elements (the
+							// upper side is not decided here)
+							if k, ok := constInt(bo.Y); ok && k > 0 {
+								cont, need, what = arg, k, fmt.Sprintf("[len(%s)-%d]", symKey(arg), k)
+							}
 						}
 					}
 				case *ssa.Index:
